@@ -828,7 +828,7 @@ def trash_file_in_vc(S, prefix='put', conservation=True):
                   ('trashcli.fs', 'RealMove.move'),
                   ('trashcli.put.janitor_tools.security_check',
                    'SecurityCheck.check_trash_dir_is_secure')):
-            S.resolve(*q)
+            S.note_function(*q)
         sec_parent = spec.dirname(ctx, td)
         secure0 = secure_top(fs, sec_parent)
         sigma0 = fs.sigma
@@ -1284,7 +1284,7 @@ def trash_file_vc(S, prefix='put/file'):
                    'TrashDirectoriesFinder.possible_trash_directories_for'),
                   ('trashcli.put.reporting.trash_put_reporter',
                    'TrashPutReporter.unable_to_trash_file')):
-            S.resolve(*q)
+            S.note_function(*q)
         try:
             r = V.I.call_function(fv, [], {'self': o['file_trasher'],
                                            'path': path, 'context': context})
@@ -1414,7 +1414,7 @@ def trash_single_vc(S, prefix='put/single'):
                   ('trashcli.put.user', 'parse_user_reply'),
                   ('trashcli.put.fs.real_fs', 'RealFs.lexists'),
                   ('trashcli.put.fs.real_fs', 'RealFs.is_accessible')):
-            S.resolve(*q)
+            S.note_function(*q)
         try:
             r = V.I.call_function(fv, [], {'self': o['trasher'], 'path': path,
                                            'context': context})
@@ -1570,10 +1570,10 @@ def run_put_any_length_vc(S, prefix='put/run-any-length'):
         ctx = V.ctx
         o = put_objects(V)
         fv = S.resolve('trashcli.put.trash_put_cmd', 'TrashPutCmd.run_put')
-        S.resolve('trashcli.put.context', 'Context.trash_each')
-        S.resolve('trashcli.put.reporting.trash_put_reporter',
+        S.note_function('trashcli.put.context', 'Context.trash_each')
+        S.note_function('trashcli.put.reporting.trash_put_reporter',
                   'TrashPutReporter.exit_code')
-        S.resolve('trashcli.put.core.trash_all_result',
+        S.note_function('trashcli.put.core.trash_all_result',
                   'TrashAllResult.any_failure')
         uid = arg_int('uid')
         try:
@@ -1602,10 +1602,10 @@ def run_put_vc(S, prefix='put/run'):
         ctx = V.ctx
         o = put_objects(V)
         fv = S.resolve('trashcli.put.trash_put_cmd', 'TrashPutCmd.run_put')
-        S.resolve('trashcli.put.context', 'Context.trash_each')
-        S.resolve('trashcli.put.reporting.trash_put_reporter',
+        S.note_function('trashcli.put.context', 'Context.trash_each')
+        S.note_function('trashcli.put.reporting.trash_put_reporter',
                   'TrashPutReporter.exit_code')
-        S.resolve('trashcli.put.core.trash_all_result',
+        S.note_function('trashcli.put.core.trash_all_result',
                   'TrashAllResult.any_failure')
         uid = arg_int('uid')
         try:
